@@ -10,11 +10,12 @@ CONSTANTS Cycs, Dels, Reps, Defects
 
 VARIABLES tm, t
 
-RepsQuick == {-1, 0, 1, 2, -2}
-RepsThorough == {-1, 0, 1, 2, 3, 5, -2}
+RepsQuick == {-1, 0, 1, 2, -2, -3}
+RepsThorough == {-1, 0, 1, 2, 3, 5, -2, -3}
+RepsHuge == {-3, -2, 0}
 
 Timings == [cyc : Cycs, del : Dels, rep : Reps, rev : BOOLEAN]
-Horizon(m) == (IF m.rep = -2 THEN m.del + m.cyc * 4 ELSE Total(m)) + m.del + 2
+Horizon(m) == (IF Unbounded(m) THEN m.del + m.cyc * 4 ELSE Total(m)) + m.del + 2
 
 Init == tm \in Timings /\ t = 0
 Tick == t < Horizon(tm) /\ t' = t + 1 /\ UNCHANGED tm
@@ -36,9 +37,9 @@ C == tm.cyc
 ImplIsDesign == PosEq(pos, PosDesign(tm, t)) /\ UseOverride(ph) = FirstForwardDesign(tm, t)
 InRange == 0 <= pos[1] /\ pos[1] <= pos[2] /\ pos[2] >= 1
 PreIff == (ph.k = "pre") <=> (t < tm.del)
-EndIff == (ph.k = "end") <=> (tm.rep # -2 /\ x > C * Cycles(tm))
+EndIff == (ph.k = "end") <=> (~Unbounded(tm) /\ x > C * Cycles(tm))
 \* terminal position from the total duration on, constant ever after (C02, C07)
-Terminal == (tm.rep # -2 /\ t >= Total(tm)) => PosEq(pos, IF tm.rev THEN <<0, 1>> ELSE <<1, 1>>)
+Terminal == (~Unbounded(tm) /\ t >= Total(tm)) => PosEq(pos, IF tm.rev THEN <<0, 1>> ELSE <<1, 1>>)
 \* linear rise inside a cycle: consecutive ticks differ by 1/C (2/C reversing)
 Linear == (ph.k = "act" /\ Ph(tm, t + 1).k = "act" /\ (x % C) + 1 < C /\ ~((x % C) = 0 /\ x > 0)) =>
             LET q == PosOf(Ph(tm, t + 1)) IN
@@ -59,5 +60,5 @@ Flags == ph.k = "act" =>
            /\ ph.rp = (x > C /\ tm.rep # -1)
            /\ ph.rv = (tm.rev /\ 2 * (IF (x % C) = 0 /\ x > 0 THEN C ELSE (x % C)) > C)
 \* Total agrees with behaviour: terminal exactly when time since delay exceeds cycle x (repeats+1)
-TotalAgrees == tm.rep # -2 => ((t > Total(tm)) <=> ph.k = "end")
+TotalAgrees == ((t > Total(tm)) <=> ph.k = "end")      \* Total = INF / HUGE for unbounded repeats
 =============================================================================
